@@ -383,3 +383,244 @@ Proof. induction sched as [|t r IH]; intros c I; cbn [exec]; [exact I|]. apply I
 
 Lemma inv_reach fd0 progs sched : fd0 <> FD_INVALID -> Inv fd0 (exec sched (init fd0 progs)).
 Proof. intros H. apply exec_inv, inv_init, H. Qed.
+
+(** * Consequences of the invariant, stated on the chronological [trace] *)
+
+Lemma trace_split c pre e post :
+  trace c = pre ++ e :: post -> log (sh c) = rev post ++ e :: rev pre.
+Proof.
+  unfold trace. intros H. apply (f_equal (@rev event)) in H. rewrite rev_involutive in H.
+  rewrite H, rev_app_distr. cbn [rev]. rewrite <- app_assoc. reflexivity.
+Qed.
+
+Lemma In_trace c e : In e (trace c) <-> In e (log (sh c)).
+Proof. unfold trace. symmetry. apply in_rev. Qed.
+
+Lemma cnt_trace p c : cnt p (trace c) = cnt p (log (sh c)).
+Proof. apply cnt_rev. Qed.
+
+Lemma gone_dec r : gone r \/ ~ gone r.
+Proof. destruct r as [[?|]|[?|]|[?|]| | | ]; cbn; auto. Qed.
+
+Lemma sumf_all0 f l : (forall th, In th l -> f th = 0) -> sumf f l = 0.
+Proof. induction l as [|x r IH]; cbn; intros H; [reflexivity|]. rewrite (H x), IH; auto. Qed.
+
+Lemma sumf_0_all f l : sumf f l = 0 -> forall th, In th l -> f th = 0.
+Proof.
+  induction l as [|x r IH]; cbn; intros H th []; [subst; lia|]. apply IH; [lia|assumption].
+Qed.
+
+(** (a) at most one take returns Some, and it returns the original descriptor; so does every get *)
+Lemma take_at_most_once fd0 c : Inv fd0 c ->
+  cnt is_take_some (trace c) <= 1
+  /\ cnt is_takecas (trace c) <= 1
+  /\ (forall t i v, In (EvRet t i (RTake (Some v))) (trace c) -> v = fd0)
+  /\ (forall t i v, In (EvRet t i (RGet (Some v))) (trace c) -> v = fd0).
+Proof.
+  intros I. rewrite !cnt_trace. destruct I. repeat split.
+  - lia.
+  - lia.
+  - intros t i v H. apply In_trace, in_split in H as (newer & older & H).
+    pose proof (proj1 (ForallSuf_split _ _) i_rets0 _ _ _ H) as R.
+    destruct (R _ _ _ eq_refl) as (_ & _ & R3 & _). eauto.
+  - intros t i v H. apply In_trace, in_split in H as (newer & older & H).
+    pose proof (proj1 (ForallSuf_split _ _) i_rets0 _ _ _ H) as R.
+    destruct (R _ _ _ eq_refl) as (_ & _ & _ & R4). eauto.
+Qed.
+
+(** every returned [Some] of a take is backed by THE successful compare_exchange *)
+Lemma take_some_needs_cas fd0 c : Inv fd0 c ->
+  cnt is_take_some (trace c) <= cnt is_takecas (trace c).
+Proof. intros I. rewrite !cnt_trace. destruct I. lia. Qed.
+
+(** (b) an operation whose first atomic action comes after the successful take's
+    compare_exchange reports the descriptor as gone *)
+Lemma after_take_gone fd0 c : Inv fd0 c ->
+  forall pre tk v mid t i mid2 r post,
+    trace c = pre ++ EvTakeCas tk v :: mid ++ EvStart t i :: mid2 ++ EvRet t i r :: post ->
+    gone r.
+Proof.
+  intros I pre tk v mid t i mid2 r post H.
+  replace (pre ++ EvTakeCas tk v :: mid ++ EvStart t i :: mid2 ++ EvRet t i r :: post)
+    with ((pre ++ EvTakeCas tk v :: mid ++ EvStart t i :: mid2) ++ EvRet t i r :: post) in H
+    by (rewrite <- !app_assoc; cbn; rewrite <- !app_assoc; reflexivity).
+  apply trace_split in H.
+  pose proof (proj1 (ForallSuf_split _ _) (i_rets _ _ I) _ _ _ H) as R.
+  destruct (R _ _ _ eq_refl) as (_ & R2 & _).
+  destruct (gone_dec r) as [G|G]; [exact G|exfalso].
+  specialize (R2 G).
+  assert (E : rev (pre ++ EvTakeCas tk v :: mid ++ EvStart t i :: mid2)
+              = rev mid2 ++ EvStart t i :: rev (pre ++ EvTakeCas tk v :: mid)).
+  { replace (pre ++ EvTakeCas tk v :: mid ++ EvStart t i :: mid2)
+      with ((pre ++ EvTakeCas tk v :: mid) ++ EvStart t i :: mid2)
+      by (rewrite <- !app_assoc; reflexivity).
+    rewrite rev_app_distr. cbn [rev]. rewrite <- app_assoc. reflexivity. }
+  pose proof (proj1 (ForallSuf_split _ _) R2 _ _ _ E eq_refl) as Z0.
+  rewrite cnt_rev, cnt_app in Z0. cbn in Z0. lia.
+Qed.
+
+(** every return has its start before it (so (b) speaks about every finished operation) *)
+Lemma ret_has_start fd0 c : Inv fd0 c ->
+  forall pre t i r post, trace c = pre ++ EvRet t i r :: post -> In (EvStart t i) pre.
+Proof.
+  intros I pre t i r post H. apply trace_split in H.
+  pose proof (proj1 (ForallSuf_split _ _) (i_rets _ _ I) _ _ _ H) as R.
+  destruct (R _ _ _ eq_refl) as (R1 & _). apply in_rev. exact R1.
+Qed.
+
+(** (c)(d)(e) closes *)
+Lemma close_facts fd0 c : Inv fd0 c ->
+  cnt is_close (trace c) <= 1
+  /\ (forall t fd, In (EvClose t fd) (trace c) -> fd = fd0)
+  /\ (forall pre t fd post, trace c = pre ++ EvClose t fd :: post -> In (EvDecZero t) pre)
+  /\ cnt is_deczero (trace c) <= 1
+  /\ (0 < strong (sh c) -> cnt is_close (trace c) = 0)
+  /\ (0 < cnt is_takecas (trace c) -> cnt is_close (trace c) = 0)
+  /\ (forall t s n, In (EvDupSys t s n) (trace c) ->
+        s = fd0 /\ n <> fd0 /\ forall t' fd, In (EvClose t' fd) (trace c) -> fd <> n).
+Proof.
+  intros I. rewrite !cnt_trace.
+  assert (Hcl : forall t fd, In (EvClose t fd) (trace c) -> fd = fd0).
+  { intros t fd H. apply In_trace in H. pose proof (i_evs _ _ I) as F.
+    rewrite Forall_forall in F. apply (F _ H). }
+  assert (Hcnt : cnt is_close (log (sh c)) <= 1) by (destruct I; lia).
+  repeat split.
+  - exact Hcnt.
+  - exact Hcl.
+  - intros pre t fd post H. apply trace_split in H.
+    pose proof (proj1 (ForallSuf_split _ _) (i_closeord _ _ I) _ _ _ H) as R.
+    destruct (R _ _ eq_refl) as (R1 & _). apply in_rev. exact R1.
+  - destruct I; lia.
+  - destruct I; lia.
+  - destruct I; lia.
+  - apply In_trace in H. pose proof (i_evs _ _ I) as F. rewrite Forall_forall in F. apply (F _ H).
+  - apply In_trace in H. pose proof (i_evs _ _ I) as F. rewrite Forall_forall in F.
+    specialize (F _ H). cbn in F. lia.
+  - intros t' fd H'. apply Hcl in H'. subst fd.
+    apply In_trace in H. pose proof (i_evs _ _ I) as F. rewrite Forall_forall in F.
+    specialize (F _ H). cbn in F. lia.
+Qed.
+
+Definition quiescent (c : cfg) : Prop := forall th, In th (threads c) -> pc th = Idle.
+Definition all_handles_dropped (c : cfg) : Prop := forall th, In th (threads c) -> live th = [].
+
+Lemma strong_is_live_handles fd0 c : Inv fd0 c ->
+  strong (sh c) = sumf nlive (threads c) /\ (strong (sh c) = 0 <-> all_handles_dropped c).
+Proof.
+  intros I. split; [apply (i_strong _ _ I)|]. rewrite (i_strong _ _ I). unfold all_handles_dropped. split.
+  - intros H th Hin. pose proof (sumf_0_all _ _ H th Hin) as L. destruct th as [? ? ? [|] ?]; cbn in *; [reflexivity|discriminate].
+  - intros H. apply sumf_all0. intros th Hin. specialize (H th Hin). destruct th; cbn in *. subst. reflexivity.
+Qed.
+
+(** (c) when no thread is inside a call, nobody took the descriptor and all handles are
+    dropped, close(fd0) has been called exactly once; and every successful take has returned *)
+Lemma close_exactly_once fd0 c : Inv fd0 c -> quiescent c -> threads c <> [] ->
+  (cnt is_takecas (trace c) = 0 -> all_handles_dropped c -> cnt is_close (trace c) = 1)
+  /\ cnt is_take_some (trace c) = cnt is_takecas (trace c).
+Proof.
+  intros I Q NE. rewrite !cnt_trace.
+  assert (Z1 : sumf in_dtor (threads c) = 0).
+  { apply sumf_all0. intros th Hin. specialize (Q th Hin). destruct th; cbn in *. subst. reflexivity. }
+  assert (Z2 : sumf holds_take (threads c) = 0).
+  { apply sumf_all0. intros th Hin. specialize (Q th Hin). destruct th; cbn in *. subst. reflexivity. }
+  split.
+  - intros NT AD. apply (strong_is_live_handles _ _ I) in AD.
+    pose proof (i_dz5 _ _ I NT). destruct (i_dz3 _ _ I AD) as [?|?]; [lia|contradiction].
+  - pose proof (i_take _ _ I). lia.
+Qed.
+
+(** * Ownership: programs accepted by [ownership_respected] never perform an invalid operation *)
+
+Definition own_th (th : thread) : Prop :=
+  match pc th with
+  | Idle => own_ok (prog th) (live th) (nexth th) = true
+  | TakeCas h _ | TakeDec h _ =>
+      has h (live th) = true /\ own_ok (tl (prog th)) (rm1 h (live th)) (nexth th) = true
+  | DupSys _ => own_ok (tl (prog th)) (live th) (nexth th) = true
+  | DtorLoad k | DtorCas _ k | DtorClose _ k =>
+      k <> RInvalid /\ own_ok (tl (prog th)) (live th) (nexth th) = true
+  end.
+
+Definition no_invalid (lg : list event) : Prop := forall t i, ~ In (EvRet t i RInvalid) lg.
+
+Record OwnInv (c : cfg) : Prop := mkOwnInv {
+  o_th : forall th, In th (threads c) -> own_th th;
+  o_log : no_invalid (log (sh c))
+}.
+
+Lemma In_upd {A} (l : list A) : forall t x y, In y (upd t x l) -> y = x \/ In y l.
+Proof.
+  induction l as [|a r IH]; intros [|t] x y H; cbn in *; try contradiction.
+  - destruct H; auto.
+  - destruct H as [->|H]; auto. destruct (IH _ _ _ H); auto.
+Qed.
+
+Lemma own_init progs : ownership_respected progs = true -> OwnInv (init 0%Z progs) /\
+  forall fd0, OwnInv (init fd0 progs).
+Proof.
+  intros H. unfold ownership_respected in H. rewrite forallb_forall in H.
+  assert (G : forall fd0, OwnInv (init fd0 progs)).
+  { intros fd0. constructor; cbn.
+    - intros th Hin. apply in_map_iff in Hin as (p & <- & Hp). cbn. apply H, Hp.
+    - intros t i []. }
+  split; [apply G|exact G].
+Qed.
+
+Lemma step_own t c : OwnInv c -> OwnInv (step t c).
+Proof.
+  intros [Oth Olog]. unfold step. destruct (nth_error (threads c) t) as [th|] eqn:E; [|constructor; assumption].
+  destruct (step_thread t th (sh c)) as [th' s'] eqn:ST.
+  destruct c as [[cl st nf lg] ths]. destruct th as [pg dn p lv nx].
+  cbn [sh threads cell strong next_fd log] in *.
+  pose proof (Oth _ (nth_error_In _ _ E)) as Hth. unfold own_th in Hth. cbn [pc prog live nexth] in Hth.
+  split_step ST.
+  1: { rewrite (upd_same _ _ _ E). constructor; assumption. }
+  all: red_rec.
+  all: cbn [own_ok tl] in Hth.
+  all: repeat match goal with
+       | H : _ /\ _ |- _ => destruct H
+       | H : andb _ _ = true |- _ => apply andb_prop in H
+       end.
+  all: try congruence.
+  all: constructor; red_rec.
+  all: try (intros th0 Hin; apply In_upd in Hin as [->|Hin]; [unfold own_th; cbn [pc prog live nexth tl]; auto|apply Oth; exact Hin]).
+  all: try (intros t0 i0 Hin; cbn [In] in Hin;
+            repeat match goal with H : _ \/ _ |- _ => destruct H as [H|H]; [try discriminate H; try (injection H as ? ? ?; subst; congruence)|] end;
+            eapply Olog; eassumption).
+Show.
+Abort.
+(*STOP*)
+
+
+Lemma exec_own sched : forall c, OwnInv c -> OwnInv (exec sched c).
+Proof. induction sched as [|t r IH]; intros c I; cbn [exec]; [exact I|]. apply IH, step_own, I. Qed.
+
+(** * Termination of the run-to-completion phase *)
+
+Definition measure (th : thread) : nat :=
+  match pc th with
+  | Idle => 6 * length (prog th)
+  | TakeCas _ _ => 6 * length (tl (prog th)) + 5
+  | TakeDec _ _ => 6 * length (tl (prog th)) + 4
+  | DtorLoad _ => 6 * length (tl (prog th)) + 3
+  | DtorCas _ _ => 6 * length (tl (prog th)) + 2
+  | DtorClose _ _ | DupSys _ => 6 * length (tl (prog th)) + 1
+  end.
+
+Lemma measure_bound th : measure th <= steps_bound th.
+Proof. unfold measure, steps_bound. destruct th as [[|o pg] dn [] lv nx]; cbn [pc prog tl length]; lia. Qed.
+
+Lemma measure_0_finished th : measure th = 0 <-> finished th = true.
+Proof.
+  unfold measure, finished. destruct th as [[|o pg] dn [] lv nx]; cbn [pc prog tl length]; split; intros H; try lia; try discriminate; reflexivity.
+Qed.
+
+Lemma step_thread_measure t th s th' s' : step_thread t th s = (th', s') ->
+  (measure th = 0 /\ th' = th /\ s' = s) \/ measure th' < measure th.
+Proof.
+  intros ST. destruct th as [pg dn p lv nx]. destruct s as [cl st nf lg].
+  split_step ST.
+  1: { left. cbn. auto. }
+  all: right; unfold measure; red_rec; cbn [tl length]; try lia.
+  all: destruct pg; cbn [tl length]; lia.
+Qed.
